@@ -49,6 +49,8 @@ var tunnelShapes = []shape{
 	// exchange, its body bytes must not be read as the next request
 	{"J-post-unusable-host", "POST", "/g", nil, "GET /a HTTP/1.1\r\nHost: " + originHost + "\r\n\r\n", "no such host", true},
 	{"K-post-origin-unreachable", "POST", "/k", nil, "0123456789abcdef", "", false},
+	// HEAD for a resource the origin sends without Content-Length: a head only, no body framing bytes
+	{"L-head-chunked", "HEAD", "/b", nil, "", "", false},
 }
 
 func scriptTunnelOrigin(o *vnet.Origin, prefix string) {
@@ -120,6 +122,7 @@ func scenarioTunnel(c *vrun.Ctx) {
 	n := len(tunnelShapes)
 	caseNo := 0
 	pipelineTimeouts := 0
+	ioTimeouts := 0
 	for depth := 1; depth <= p.Depth; depth++ {
 		total := 1
 		for i := 0; i < depth; i++ {
@@ -237,6 +240,19 @@ func scenarioTunnel(c *vrun.Ctx) {
 				}
 			}
 			c.Outcome(desc)
+			for _, rs := range results {
+				for _, r := range rs {
+					if strings.Contains(r, "i/o timeout") {
+						ioTimeouts++
+					}
+				}
+			}
+			if ioTimeouts >= 8 {
+				// every unanswered exchange costs the full read deadline of real time; each has been
+				// reported above, the rest of the enumeration would only repeat them
+				c.Cap("tunnel sequences stopped after 8 exchanges that ran into the read deadline")
+				return
+			}
 			if caseNo%131 == 0 {
 				c.Sample(map[string]any{"sequence": names, "one_tunnel": results["one-tunnel"]})
 			}
